@@ -89,11 +89,11 @@ prop(
 )
 
 prop(
-    'C09', 'exploration',
-    "Bounded stand-in: generated source files in all five formats x 16 source->target pairs through the real read / convert / write, the written text parsed by the target's independent interpreter and compared with the source's interpreter applied to the source file (objects, columns, hold lengths, tempo timeline, validity). The composition also rests on the per-format and converter contracts of C01-C08.",
-    'A5 oracles of C01/C02/C04/C06/C07; nothing counted as proved',
-    'run-time contract checking end to end against independent format interpreters (bounded stand-in)',
-    "DESIGN.md section 7 C09",
+    'C09', 'other',
+    'The property is a composition. Three composition lemmas are machine-checked over the frame model: an osu chart of any history (symbolic row labels) -> OsuToQua.convert -> the Quaver record writers, a BMS chart -> BMSToQua.convert -> the record writers, and a Quaver chart -> QuaToOsu.convert -> the .osu item-line writers parsed back by the .osu line grammar: the written records / lines denote the source objects (column, time < 1 ms, hold end, bpm, SV) - i.e. the converter post-state is what the target writer needs. The remaining legs are C01-C08. End to end: generated source files in all five formats x 16 pairs through the real read / convert / write, the written text parsed by the target format interpreter and compared with the source interpreter (bounded).',
+    'shape-bounded lemmas (lists of 0..2 rows); A5 oracles of C01/C02/C04/C06/C07; yaml / byte-level writers only in the bounded run',
+    'contract-based deductive verification of compositions over a shape-bounded symbolic frame model (z3) + bounded end-to-end run against independent format interpreters',
+    "DESIGN.md section 7 C09", uses_frames=True, explanation='three converter->writer composition lemmas proved at small shapes; the 16-pair end-to-end claim only by the bounded stand-in',
 )
 
 prop(
